@@ -540,4 +540,169 @@ example :
     st (upgradeStep { ro with realPartition := false } step { c with ro := { ro with realPartition := false } }) = some .trafficRouting := by
   decide
 
+/-! ### C03 — the recorded pod-template hash is the workload's -/
+
+theorem upgradeStep_podHash (ro : Rollout) (step : Step) (c c' : Ctx) (err : Bool)
+    (h : upgradeStep ro step c = .ok c' err) :
+    c'.sub.state = c.sub.state ∨ c'.sub.podHash = c.wl.podTemplateHash := by
+  unfold upgradeStep at h
+  dsimp only at h
+  split at h
+  · simp only [RunOut.ok.injEq] at h
+    obtain ⟨hc, _⟩ := h
+    subst hc
+    exact Or.inr rfl
+  · simp only [RunOut.ok.injEq] at h
+    obtain ⟨hc, _⟩ := h
+    subst hc
+    exact Or.inl rfl
+
+theorem initStep_podHash (ro : Rollout) (step : Step) (c c' : Ctx) (err : Bool) (hst : c.sub.state = .init)
+    (h : initStep ro step c = .ok c' err) :
+    c'.sub.state = .init ∨ c'.sub.state = .upgrade ∨ c'.sub.podHash = c.wl.podTemplateHash := by
+  have hk : ∀ c1 : Ctx, c1.wl = c.wl →
+      upgradeStep ro step { c1 with sub := { c1.sub with state := .upgrade, lastUpdate := .fresh } } = .ok c' err →
+      (c'.sub.state = .init ∨ c'.sub.state = .upgrade ∨ c'.sub.podHash = c.wl.podTemplateHash) := by
+    intro c1 hw hu
+    rcases upgradeStep_podHash _ _ _ _ _ hu with hx | hx
+    · exact Or.inr (Or.inl hx)
+    · right; right; rw [hx]; dsimp only; rw [hw]
+  have hstop : ∀ c1 : Ctx, c1.sub.state = c.sub.state → (c' = c1 ∨ c' = { c1 with requeue := true }) →
+      (c'.sub.state = .init ∨ c'.sub.state = .upgrade ∨ c'.sub.podHash = c.wl.podTemplateHash) := by
+    intro c1 h2 hc
+    left
+    have e1 : c'.sub = c1.sub := by rcases hc with hc | hc <;> rw [hc]
+    rw [e1, h2, hst]
+  unfold initStep at h
+  dsimp only at h
+  split at h
+  · split at h
+    · simp only [RunOut.ok.injEq] at h
+      obtain ⟨hc, _⟩ := h; subst hc
+      exact Or.inr (Or.inl rfl)
+    · obtain ⟨c1, rt, e, hr1, hcase⟩ := afterRetryCall_spec _ _ c' err h
+      have hc1 : c1.sub.state = c.sub.state ∧ c1.wl = c.wl := by
+        split at hr1
+        · exact ⟨(callTM_sub _ _ _ _ _ _ hr1).2.1, (callTM_sub _ _ _ _ _ _ hr1).2.2.2.2.1⟩
+        · simp only [Option.some.injEq, Prod.mk.injEq] at hr1; rw [← hr1.1]; exact ⟨rfl, rfl⟩
+      rcases hcase with ⟨hc, _⟩ | ⟨hc, _⟩ | ⟨_, _, hcont⟩
+      · exact hstop c1 hc1.1 (Or.inl hc)
+      · exact hstop c1 hc1.1 (Or.inr hc)
+      · obtain ⟨c2, rt2, e2, hr2, hcase2⟩ := afterRetryCall_spec _ _ c' err hcont
+        have hc2 : c2.sub.state = c.sub.state ∧ c2.wl = c.wl := by
+          split at hr2
+          · exact ⟨by rw [(callTM_sub _ _ _ _ _ _ hr2).2.1, hc1.1], by rw [(callTM_sub _ _ _ _ _ _ hr2).2.2.2.2.1, hc1.2]⟩
+          · simp only [Option.some.injEq, Prod.mk.injEq] at hr2; rw [← hr2.1]; exact hc1
+        rcases hcase2 with ⟨hc, _⟩ | ⟨hc, _⟩ | ⟨_, _, hcont2⟩
+        · exact hstop c2 hc2.1 (Or.inl hc)
+        · exact hstop c2 hc2.1 (Or.inr hc)
+        · exact hk c2 hc2.2 hcont2
+  · obtain ⟨c1, rt, e, hr1, hcase⟩ := afterRetryCall_spec _ _ c' err h
+    have hc1 : c1.sub.state = c.sub.state ∧ c1.wl = c.wl := by
+      split at hr1
+      · exact ⟨(callTM_sub _ _ _ _ _ _ hr1).2.1, (callTM_sub _ _ _ _ _ _ hr1).2.2.2.2.1⟩
+      · simp only [Option.some.injEq, Prod.mk.injEq] at hr1; rw [← hr1.1]; exact ⟨rfl, rfl⟩
+    rcases hcase with ⟨hc, _⟩ | ⟨hc, _⟩ | ⟨_, _, hcont⟩
+    · exact hstop c1 hc1.1 (Or.inl hc)
+    · exact hstop c1 hc1.1 (Or.inr hc)
+    · exact hk c1 hc1.2 hcont
+
+/-- **C03 (one `runCanary`)** — for every context: a round of the release manager that starts in `StepInit` /
+    `StepUpgrade` and ends in `StepTrafficRouting` / `StepMetricsAnalysis` (the step's pods were reported ready)
+    records the workload's current `PodTemplateHash` — the canary ReplicaSet's hash for a canary-style Deployment. -/
+theorem runCanary_podHash (c0 c' : Ctx) (err : Bool) (h : runCanary c0 = .ok c' err)
+    (hfrom : c0.sub.state = .init ∨ c0.sub.state = .upgrade)
+    (hto : c'.sub.state = .trafficRouting ∨ c'.sub.state = .metricsAnalysis) :
+    c'.sub.podHash = c0.wl.podTemplateHash := by
+  obtain ⟨y1, y2, y3, y4, y5⟩ := syncStep_sub c0
+  have hnu : ¬ Upgraded c0.sub.state := by
+    unfold Upgraded
+    rcases hfrom with hf | hf <;> rw [hf] <;> simp
+  have hnt : ∀ st : StepState, st = c0.sub.state → (st = .trafficRouting ∨ st = .metricsAnalysis) → False := by
+    intro st e hx
+    rw [e] at hx
+    rcases hfrom with hf | hf <;> rw [hf] at hx <;> rcases hx with hx | hx <;> cases hx
+  unfold runCanary at h
+  dsimp only at h
+  split at h
+  · cases h
+  · rename_i s2 hj
+    cases h
+    obtain ⟨_, j2⟩ := jump_spec _ _ _ _ hj
+    obtain ⟨_, _, _, _, _, jst, jup⟩ := j2 rfl
+    dsimp only at hto
+    rcases jst with jst | jst
+    · have := jup jst
+      rw [y3] at this
+      exact absurd this hnu
+    · rw [jst] at hto; rcases hto with hx | hx <;> cases hx
+  · rename_i s2 hj
+    obtain ⟨j1, _⟩ := jump_spec _ _ _ _ hj
+    have hs2 := j1 rfl
+    subst hs2
+    split at h
+    · cases h
+    · rename_i step hstep
+      split at h
+      · cases h
+      · rename_i c3 done e hpre
+        have hc3 : c3.sub.state = c0.sub.state ∧ c3.wl = c0.wl := by
+          unfold preStep at hpre
+          split at hpre
+          · exact ⟨by rw [(callTM_sub _ _ _ _ _ _ hpre).2.1]; exact y3, by rw [(callTM_sub _ _ _ _ _ _ hpre).2.2.2.2.1]; exact y5⟩
+          · simp only [Option.some.injEq, Prod.mk.injEq] at hpre; rw [← hpre.1]; exact ⟨y3, y5⟩
+        split at h
+        · simp only [RunOut.ok.injEq] at h
+          rw [← h.1] at hto
+          exact (hnt _ hc3.1 hto).elim
+        · split at h
+          · simp only [RunOut.ok.injEq] at h
+            rw [← h.1] at hto
+            dsimp only at hto
+            exact (hnt _ hc3.1 hto).elim
+          · unfold stateStep at h
+            dsimp only at h
+            rcases hfrom with hf | hf
+            · rw [hc3.1, hf] at h
+              dsimp only at h
+              rcases initStep_podHash _ _ _ _ _ (hc3.1.trans hf) h with hx | hx | hx
+              · rw [hx] at hto; rcases hto with hx | hx <;> cases hx
+              · rw [hx] at hto; rcases hto with hx | hx <;> cases hx
+              · rw [hx, hc3.2]
+            · rw [hc3.1, hf] at h
+              dsimp only at h
+              rcases upgradeStep_podHash _ _ _ _ _ h with hx | hx
+              · rw [hx] at hto; exact (hnt _ hc3.1 hto).elim
+              · rw [hx, hc3.2]
+
+/-- **C03 (whole reconcile)** — for every world with a readable workload: a reconcile that finds the step's pods ready
+    (status from `StepInit` / `StepUpgrade` to `StepTrafficRouting` / `StepMetricsAnalysis`) records the workload's
+    `PodTemplateHash` as reported by the finder in this very reconcile. -/
+theorem upgrade_records_pod_hash (w : World) (r : StepResult) (h : reconcile w = .val r) :
+    upgradeRecordsPodHash w r = true := by
+  unfold upgradeRecordsPodHash
+  cases hos : w.ro.sub with
+  | none => rfl
+  | some os =>
+  cases hs' : r.w.ro.sub with
+  | none => rfl
+  | some s' =>
+  cases hw : w.wl with
+  | none => rfl
+  | some wl =>
+  dsimp only
+  split
+  · rename_i hc
+    obtain ⟨hnow, hrr, hcons, hfrom, hto⟩ := hc
+    obtain ⟨c0, c', err, hrun, hsame, hwl, hidx, hst, hsub, hnet⟩ :=
+      reconcile_progress w r h os s' wl hos hs' hw hnow hcons hfrom
+        (by rcases hto with hx | hx
+            · exact Or.inr (Or.inl hx)
+            · exact Or.inr (Or.inr hx))
+        (by rcases hto with hx | hx <;> rw [hx] <;> rcases hfrom with hf | hf <;> rw [hf] <;> simp)
+    have hb := runCanary_podHash c0 c' err hrun (by rw [hst]; exact hfrom) (by rw [hsub]; exact hto)
+    rw [hsub, hwl] at hb
+    simp [hb]
+  · rfl
+
 end RV.Props.CanaryStyle
